@@ -71,7 +71,7 @@ class C07:
                  "why": "calls IndexTables.augment_machine_tables, which does not exist (AttributeError); the "
                         "multi-start protocol actually used by MultiStageFFSPPolicy (batchify + env.pre_step) "
                         "is exercised instead"},
-                {"what": "FJSP stepwise_reward / check_mask options", "why": "not part of the property"}]
+                {"what": "FJSP check_mask option; the dense per-step values under stepwise_reward=True", "why": "not part of the property (with stepwise_reward=True, 15% of FJSP/JSSP runs, the reward reported for the complete action sequence is still checked against the makespan)"}]
     CANARIES = {}
 
     # ---------------------------------------------------------------------------------------------
